@@ -31,3 +31,37 @@ Definition ex_deposit : tx := DepositForBurn ex_alice (Some 100%Z) 0 (repeat x07
 
 Example ex_env_ok : env_ok ex_env = true. Proof. vm_compute. reflexivity. Qed.
 Example ex_deposit_ok : is_ok (deliver ex_env ex_chain [] ex_deposit) = true. Proof. vm_compute. reflexivity. Qed.
+
+(* ---------- an environment in which attestations verify: the recovery oracle answers one fixed key ---------- *)
+Definition ex_pk : bytes := x04 :: repeat xab 64.
+Definition ex_env2 : env :=
+  {| hrp := B "cosmos"; mint_denom := B "uusdc"; module_addr := ex_module; recover := fun _ _ => Some ex_pk |}.
+Definition ex_attester : bytes := B "0x04" ++ hex_encode (repeat xab 64).
+Definition ex_genesis2 : genesis :=
+  {| g_owner := ex_alice; g_attester_manager := ex_alice; g_pauser := ex_bob; g_token_controller := ex_carol;
+     g_attesters := [ex_attester]; g_limits := []; g_bm_paused := Some false; g_sr_paused := Some false;
+     g_max_body := Some 8000%N; g_next_nonce := Some 7%N; g_threshold := Some 1%N;
+     g_pairs := [{| tp_domain := 0; tp_token := repeat x01 32; tp_local := B "uUSDC" |}];
+     g_nonces := [{| un_domain := 0; un_nonce := 5 |}];
+     g_messengers := [{| tm_domain := 0; tm_address := repeat x09 32 |}] |}.
+Definition ex_store2 : store := match init_genesis ex_genesis2 with Some s => s | None => empty_store end.
+Definition ex_chain2 : chain := {| c_st := ex_store2; c_lg := ex_ledger |}.
+
+(* a burn message from domain 0, nonce 6, for 2^64 + 5 units to the account 0x22..22 (high bytes of the field non-zero) *)
+Definition ex_burn_body : bytes :=
+  match encode_burn {| bm_version := 0; bm_token := repeat x01 32; bm_recipient := repeat xff 12 ++ ex_acct x22;
+                       bm_amount := 18446744073709551621; bm_sender := repeat x33 32 |} with Some b => b | None => [] end.
+Definition ex_message (nonce : N) : bytes :=
+  match encode_message {| m_version := 0; m_src := 0; m_dst := 4; m_nonce := nonce; m_sender := repeat x09 32;
+                          m_recipient := copy12 ex_module; m_caller := zeros 32; m_body := ex_burn_body |} with Some b => b | None => [] end.
+Definition ex_receive (nonce : N) : tx := ReceiveMessage ex_alice (ex_message nonce) (repeat x00 65).
+
+Example ex_receive_ok :
+  let r := deliver ex_env2 ex_chain2 [] (ex_receive 6) in
+  is_ok r = true /\
+  r_calls r = [DMint (module_str ex_env2) ex_bob (B "uusdc") 18446744073709551621 true] /\
+  balance (c_lg (r_chain r)) (ex_acct x22) (B "uusdc") = 18446744073709551621%Z /\
+  (* the same message again, and a message for the pair (0, 5) listed in genesis, are rejected *)
+  is_ok (deliver ex_env2 (r_chain r) [] (ex_receive 6)) = false /\
+  is_ok (deliver ex_env2 ex_chain2 [] (ex_receive 5)) = false.
+Proof. vm_compute. repeat split; reflexivity. Qed.
